@@ -448,6 +448,8 @@ template<bool AL, bool PO> using CfgSmall = ShadowPolicy<0x1000, 1 << 14, 1 << 1
 template<bool AL, bool PO> using CfgBigPage = ShadowPolicy<0x4000, 1 << 16, 1 << 16, 10, AL, PO>;
 template<bool AL, bool PO> using CfgBigSb = ShadowPolicy<0x1000, 1 << 18, 1 << 19, 14, AL, PO>;
 template<bool AL, bool PO> using CfgTiny = ShadowPolicy<0x1000, 0x1000, 0x1000, 5, AL, PO>;
+template<bool AL, bool PO> using CfgOdd = ShadowPolicy<0x1000, 0x3000, 0x4000, 8, AL, PO>;      // slab size not a power of two (only a page multiple <= superblock size is required)
+template<bool AL, bool PO> using CfgOddBig = ShadowPolicy<0x1000, 0x30000, 0x40000, 13, AL, PO>;
 
 template<typename Policy, typename Mutex>
 static void run_cfg(const char *name, uint64_t ncases, unsigned nops) {
@@ -551,6 +553,9 @@ int main(int argc, char **argv) {
 		run_cfg<CfgBigPage<true, false>, SM>("bigpage/aligned/plain", n, ops);
 		run_cfg<CfgBigSb<false, true>, SM>("bigsb/unaligned/poison", n, ops);
 		run_cfg<CfgBigSb<true, true>, SM>("bigsb/aligned/poison", n, ops);
+		run_cfg<CfgOdd<false, true>, SM>("odd-slab/unaligned/poison", n * 2, ops);
+		run_cfg<CfgOdd<true, false>, SM>("odd-slab/aligned/plain", n, ops);
+		run_cfg<CfgOddBig<true, true>, SM>("odd-slab-192K/aligned/poison", n / 2 + 1, ops);
 		run_cfg<CfgTiny<false, true>, SM>("tiny/unaligned/poison", n * 3, ops);
 		run_cfg<CfgTiny<true, false>, SM>("tiny/aligned/plain", n * 3, ops);
 		exhaustive<CfgTiny<false, true>, SM>("exh:tiny/unaligned/poison", t ? 8 : 6);
@@ -563,6 +568,7 @@ int main(int argc, char **argv) {
 		fault_enum<CfgTiny<false, true>, SM>("tiny/unaligned/poison/fill", 1007, 600, t, true);
 		fault_enum<CfgSmall<true, true>, SM>("small/aligned/poison/fill", 1008, 900, t, true);
 		fault_enum<CfgDefault<true, true>, SM>("default/aligned/poison", 1004, 300, t);
+		fault_enum<CfgOdd<false, true>, SM>("odd-slab/unaligned/poison", 1009, 400, t);
 		if(t) { fault_enum<CfgBigSb<false, true>, SM>("bigsb/unaligned/poison", 1005, 400, t); fault_enum<CfgTiny<true, false>, SM>("tiny/aligned/plain", 1006, 400, t); }
 		sample("fault:small/unaligned/poison: a fixed 400-op history; run once to count map() attempts M, then re-run failing attempt i for every i (thorough: every pair and bursts of 3); all C01-C03 oracles stay armed, no mutex may stay held, later requests must succeed");
 	}
